@@ -1328,7 +1328,8 @@ namespace avel {
         auto is_reconstruction_smaller = _mm_cmplt_pd(reconstructed, decay(v));
         auto corrected_result = _mm_add_pd(reconstructed, _mm_and_pd(is_reconstruction_smaller, _mm_set1_pd(1.0f)));
 
-        return blend(mask2x64f{is_output_self}, v, vec2x64f{corrected_result});
+        // the result carries the sign of the argument, also when it is zero (the integer round trip yields +0.0)
+        return blend(mask2x64f{is_output_self}, v, copysign(vec2x64f{corrected_result}, v));
 
         #endif
 
@@ -1361,7 +1362,8 @@ namespace avel {
         auto is_reconstruction_smaller = _mm_cmplt_pd(decay(v), reconstructed);
         auto corrected_result = _mm_sub_pd(reconstructed, _mm_and_pd(is_reconstruction_smaller, _mm_set1_pd(1.0f)));
 
-        return blend(mask2x64f{is_output_self}, v, vec2x64f{corrected_result});
+        // the result carries the sign of the argument, also when it is zero (the integer round trip yields +0.0)
+        return blend(mask2x64f{is_output_self}, v, copysign(vec2x64f{corrected_result}, v));
 
         #endif
 
@@ -1391,7 +1393,8 @@ namespace avel {
 
         auto reconstructed = _mm_unpacklo_pd(reconstructed0, reconstructed1);
 
-        return blend(mask2x64f{is_output_self}, v, vec2x64f{reconstructed});
+        // the result carries the sign of the argument, also when it is zero (the integer round trip yields +0.0)
+        return blend(mask2x64f{is_output_self}, v, copysign(vec2x64f{reconstructed}, v));
 
         #endif
 
@@ -1445,7 +1448,8 @@ namespace avel {
 
                 auto reconstructed = _mm_unpacklo_pd(reconstructed0, reconstructed1);
 
-                return blend(mask2x64f{is_output_self}, v, vec2x64f{reconstructed});
+                // the result carries the sign of the argument, also when it is zero (the integer round trip yields +0.0)
+                return blend(mask2x64f{is_output_self}, v, copysign(vec2x64f{reconstructed}, v));
             }
             case _MM_ROUND_DOWN:        return avel::floor(v);
             case _MM_ROUND_TOWARD_ZERO: return avel::trunc(v);
